@@ -148,7 +148,7 @@ func c11guard(c *an.Ctx, gs []guarded) {
 		mutexes[g.mutex] = true
 	}
 	nAccess := 0
-	for _, f := range p.Fns {
+	for _, f := range p.Units() {
 		if f.Body == nil {
 			continue
 		}
@@ -343,7 +343,7 @@ func c11globals(c *an.Ctx, gs []guarded) {
 			// stores / mutations outside init and the declaration
 			var where token.Pos
 			var who string
-			for _, f := range p.Fns {
+			for _, f := range p.Units() {
 				if f.Pkg != pk || f.Body == nil {
 					continue
 				}
@@ -382,7 +382,7 @@ func c11frozen(c *an.Ctx) {
 	p := c.P
 	parse, eval := p.Parse(), p.Eval()
 	nSet, nTmpl := 0, 0
-	for _, f := range p.Fns {
+	for _, f := range p.Units() {
 		if f.Pkg != p.Jet || f.Body == nil {
 			continue
 		}
@@ -448,7 +448,7 @@ func c11perexec(c *an.Ctx) {
 		return s == "*jet.Runtime" || s == "*jet.scope" || s == "jet.VarMap" || s == "jet.Ranger" || s == "jet.pooledRanger" || strings.HasSuffix(s, "Ranger") && strings.HasPrefix(s, "*jet.")
 	}
 	bad := false
-	for _, f := range p.Fns {
+	for _, f := range p.Units() {
 		if f.Pkg != p.Jet || f.Body == nil {
 			continue
 		}
